@@ -314,6 +314,96 @@ func main() {
 		o.Set("peer.applyInOrder", pg+":handleReady", fmt.Sprint(inOrder && apPos >= 0), hr != nil, "true")
 	}
 
+	// ------------------------------------------------------------ what justifies the ReadIndex contract
+	{
+		// every place that can configure a peer's raft node
+		files := []string{pg, "raftstore/peer/config.go", "raftstore/server/server.go", "cmd/nokv/serve.go"}
+		settings := func(field string) []string {
+			var out []string
+			for _, rel := range files {
+				var ff *elib.File
+				if rel == pg {
+					ff = pf
+				} else {
+					ff = o.Load(rel)
+				}
+				ast.Inspect(ff.AST, func(x ast.Node) bool {
+					switch n := x.(type) {
+					case *ast.KeyValueExpr:
+						if id, ok := n.Key.(*ast.Ident); ok && id.Name == field {
+							out = append(out, ff.Src(n.Value))
+						}
+					case *ast.AssignStmt:
+						for i, l := range n.Lhs {
+							if sel, ok := l.(*ast.SelectorExpr); ok && sel.Sel.Name == field && i < len(n.Rhs) {
+								out = append(out, ff.Src(n.Rhs[i]))
+							}
+						}
+					}
+					return true
+				})
+			}
+			return out
+		}
+		ro, ok := "safe", true // etcd/raft's zero value is ReadOnlySafe
+		for _, v := range settings("ReadOnlyOption") {
+			switch {
+			case strings.HasSuffix(v, "ReadOnlyLeaseBased"):
+				ro = "leaseBased"
+			case strings.HasSuffix(v, "ReadOnlySafe"):
+			default:
+				ok = false
+			}
+		}
+		o.Set("peer.readOnlyOption", pg+":NewPeer (+ config.go, server.go, cmd/nokv/serve.go)", ro, ok, "safe")
+		cq, ok := "unset", true
+		for _, v := range settings("CheckQuorum") {
+			switch v {
+			case "true":
+				cq = "forced"
+			case "false":
+			default:
+				ok = false
+			}
+		}
+		o.Set("peer.checkQuorum", pg+":NewPeer (+ config.go, server.go, cmd/nokv/serve.go)", cq, ok, "unset")
+
+		// one RawNode.ReadIndex, with a context of its own, per LinearizableRead
+		lr := pf.Func("Peer.LinearizableRead")
+		sr := pf.Func("Peer.startReadIndex")
+		nStart := 0
+		for _, c := range pf.Calls(body(lr)) {
+			if c == "p.startReadIndex" {
+				nStart++
+			}
+		}
+		shape := lr != nil && sr != nil && nStart == 1 && pf.HasStmt(body(lr), "key, ch := p.startReadIndex()")
+		perRead := false
+		if sr != nil && sr.Body != nil {
+			// the call is a statement of the function body itself, nothing returns before it,
+			// and the request context embeds a fresh sequence number
+			early, found := false, false
+			for _, st := range sr.Body.List {
+				if es, ok := st.(*ast.ExprStmt); ok && pf.Src(es.X) == "p.node.ReadIndex(reqCtx)" {
+					found = true
+					break
+				}
+				ast.Inspect(st, func(x ast.Node) bool {
+					if _, ok := x.(*ast.ReturnStmt); ok {
+						early = true
+					}
+					return true
+				})
+			}
+			fresh := pf.HasStmt(sr.Body, "seq := p.readSeq.Add(1)") && pf.HasStmt(sr.Body, "binary.BigEndian.PutUint64(reqCtx[8:], seq)")
+			perRead = found && !early && fresh
+			if !found && !pf.HasCall(sr.Body, "p.node.ReadIndex") {
+				shape = false
+			}
+		}
+		o.Set("peer.readIndexPerRead", pg+":LinearizableRead/startReadIndex", fmt.Sprint(perRead), shape, "true")
+	}
+
 	f := o.Facts
 	lean := fmt.Sprintf(`-- GENERATED by /verif/extract/cmd/cluster from the current /repo working tree. Do not edit.
 import NoKVModel.Cluster.Pipeline
@@ -327,12 +417,13 @@ def pipeCfg : PipeCfg :=
 
 def svcCfg : SvcCfg :=
   { val := { leaderOp := .%s, leaderConst := %s, rejectReturns := %s },
-    read := { readIndexFirst := %s, waitsApplied := %s } }
+    read := { readIndexFirst := %s, waitsApplied := %s, quorumPerRead := %s } }
 
 end NoKV.Generated.Cluster
 `, f["pipe.applyChecksProposer"], f["pipe.completeDeletes"], f["pipe.registerRejectsDup"],
 		f["val.leaderOp"], leanState(f["val.leaderConst"]), f["val.rejectReturns"],
-		f["read.readIndexFirst"], f["read.waitsApplied"])
+		f["read.readIndexFirst"], f["read.waitsApplied"],
+		fmt.Sprint(f["peer.readOnlyOption"] == "safe" && f["peer.readIndexPerRead"] == "true" && f["peer.readIndexViaRaft"] == "true"))
 	o.Write(*jsonOut, *leanOut, lean)
 }
 
